@@ -31,11 +31,11 @@ fn write4<T: EncodingContext>(ctx: &mut T, s: &ArrayVec<u8, 4>) {
     }
 }
 
-fn handle_end<T: EncodingContext>(
-    ctx: &mut T,
-    mut symbols: ArrayVec<u8, 4>,
-) -> Result<(), DataEncodingError> {
-    // check case "encoding with <= 2 ASCII, no UNLATCH"
+/// Check the "end of symbol" rule: if at most two codewords are left in the symbol and
+/// the remaining characters fit into them in ASCII encodation, they are written in
+/// ASCII without UNLATCH. Returns `true` if the rule applies (the context is then
+/// set up to continue with ASCII).
+fn try_ascii_end<T: EncodingContext>(ctx: &mut T, symbols: &ArrayVec<u8, 4>) -> bool {
     let rest_chars = symbols.len() + ctx.characters_left();
     if rest_chars <= 4 {
         // The standard allows ASCII encoding without UNLATCH if there
@@ -52,11 +52,22 @@ fn handle_end<T: EncodingContext>(
                 Some(space) if space <= 2 && ascii_size <= space => {
                     ctx.backup(symbols.len());
                     ctx.set_ascii_until_end();
-                    return Ok(());
+                    return true;
                 }
                 _ => (),
             }
         }
+    }
+    false
+}
+
+fn handle_end<T: EncodingContext>(
+    ctx: &mut T,
+    mut symbols: ArrayVec<u8, 4>,
+) -> Result<(), DataEncodingError> {
+    // check case "encoding with <= 2 ASCII, no UNLATCH"
+    if try_ascii_end(ctx, &symbols) {
+        return Ok(());
     }
     if symbols.is_empty() {
         if !ctx.has_more_characters() {
@@ -97,7 +108,17 @@ fn handle_end<T: EncodingContext>(
 
 pub(super) fn encode<T: EncodingContext>(ctx: &mut T) -> Result<(), DataEncodingError> {
     let mut symbols = ArrayVec::<u8, 4>::new();
-    while let Some(ch) = ctx.eat() {
+    loop {
+        // The planner relies on the "end of symbol" rule being used at a boundary of
+        // four characters, so check it before reading the next group.
+        if symbols.is_empty() && ctx.has_more_characters() && try_ascii_end(ctx, &symbols) {
+            return Ok(());
+        }
+        let ch = if let Some(ch) = ctx.eat() {
+            ch
+        } else {
+            break;
+        };
         symbols.push(ch);
 
         if symbols.len() == 4 {
